@@ -558,3 +558,45 @@ Check SrcTie3EncC.seek_start_guard_model_differs.
 Theorem C11_tie_seek_start_guard_model_differs : ltac:(let t := type of SrcTie3EncC.seek_start_guard_model_differs in exact t).
 Proof. exact SrcTie3EncC.seek_start_guard_model_differs. Qed.
 Print Assumptions C11_tie_seek_start_guard_model_differs.
+(* ---------- Tie A, level 1: compress.rs translated (work package compT, gen/Src3c.v) ---------- *)
+(* the translated CompressionLayerReader (read, seek, initialize, new) IS CompLayer's, for every stream / state / argument; the translated writer IS cw_write / cw_finalize; the refinement theorem holds of the translated reader *)
+From MLA Require SrcTie3Comp SrcTie3CompW SrcTie3CompCarry.
+Theorem C11_tie_comp_read_sim : ltac:(let t := type of SrcTie3Comp.comp_read_sim in exact t).
+Proof. exact SrcTie3Comp.comp_read_sim. Qed.
+Print Assumptions C11_tie_comp_read_sim.
+Theorem C11_tie_comp_seek_sim : ltac:(let t := type of SrcTie3Comp.comp_seek_sim in exact t).
+Proof. exact SrcTie3Comp.comp_seek_sim. Qed.
+Print Assumptions C11_tie_comp_seek_sim.
+Theorem C11_tie_comp_initialize_src : ltac:(let t := type of SrcTie3Comp.comp_initialize_src in exact t).
+Proof. exact SrcTie3Comp.comp_initialize_src. Qed.
+Print Assumptions C11_tie_comp_initialize_src.
+Theorem C11_tie_comp_new_src : ltac:(let t := type of SrcTie3Comp.comp_new_src in exact t).
+Proof. exact SrcTie3Comp.comp_new_src. Qed.
+Print Assumptions C11_tie_comp_new_src.
+Theorem C11_tie_sync_inner_src : ltac:(let t := type of SrcTie3Comp.sync_inner_src in exact t).
+Proof. exact SrcTie3Comp.sync_inner_src. Qed.
+Print Assumptions C11_tie_sync_inner_src.
+Theorem C11_tie_new_decompressor_at_src : ltac:(let t := type of SrcTie3Comp.new_decompressor_at_src in exact t).
+Proof. exact SrcTie3Comp.new_decompressor_at_src. Qed.
+Print Assumptions C11_tie_new_decompressor_at_src.
+Theorem C11_tie_ubs_at_src : ltac:(let t := type of SrcTie3Comp.ubs_at_src in exact t).
+Proof. exact SrcTie3Comp.ubs_at_src. Qed.
+Print Assumptions C11_tie_ubs_at_src.
+Theorem C11_tie_src_comp_reader_refines : ltac:(let t := type of SrcTie3Comp.src_comp_reader_refines in exact t).
+Proof. exact SrcTie3Comp.src_comp_reader_refines. Qed.
+Print Assumptions C11_tie_src_comp_reader_refines.
+Theorem C11_tie_cw_write_sim : ltac:(let t := type of SrcTie3CompW.cw_write_sim in exact t).
+Proof. exact SrcTie3CompW.cw_write_sim. Qed.
+Print Assumptions C11_tie_cw_write_sim.
+Theorem C11_tie_cw_finalize_src : ltac:(let t := type of SrcTie3CompW.cw_finalize_src in exact t).
+Proof. exact SrcTie3CompW.cw_finalize_src. Qed.
+Print Assumptions C11_tie_cw_finalize_src.
+Theorem C11_tie_cw_finalize_limit_differs : ltac:(let t := type of SrcTie3CompW.cw_finalize_limit_differs in exact t).
+Proof. exact SrcTie3CompW.cw_finalize_limit_differs. Qed.
+Print Assumptions C11_tie_cw_finalize_limit_differs.
+Theorem C11_tie_cw_translated_nonvacuous : ltac:(let t := type of SrcTie3CompW.cw_translated_nonvacuous in exact t).
+Proof. exact SrcTie3CompW.cw_translated_nonvacuous. Qed.
+Print Assumptions C11_tie_cw_translated_nonvacuous.
+Theorem C11_tie_C11_comp_reader_refines_src : ltac:(let t := type of SrcTie3CompCarry.C11_comp_reader_refines_src in exact t).
+Proof. exact SrcTie3CompCarry.C11_comp_reader_refines_src. Qed.
+Print Assumptions C11_tie_C11_comp_reader_refines_src.
